@@ -286,9 +286,11 @@ pub fn c10_kf_set_mask_mid_promotion() {
     body_set_mask(U, true)
 }
 #[kani::proof]
-#[kani::unwind(20)]
+#[kani::unwind(11)]
 pub fn c10_set_mask_filters_and_loses_nothing_t() {
-    body_set_mask(NMAX, false)
+    // 18 entries (the capacity) ran past 27 minutes: the compaction swaps entries through raw
+    // pointers at symbolic addresses; 9 entries is what the thorough budget allows
+    body_set_mask(9, false)
 }
 
 // -------------------------------------------------------------------------------------- remove
